@@ -479,6 +479,7 @@ func linkStub(dst string) error {
 // Sim is one running operator instance.
 type Sim struct {
 	In          Input
+	Cluster     *fake.Cluster // the fake cluster the operator runs on (drivers may install reactors before Boot)
 	Op          *shell_operator.ShellOperator
 	Srv         *Server
 	Dir         string
@@ -557,6 +558,7 @@ func NewSim(in Input) (*Sim, error) {
 	}
 	os.Setenv("VERIF_SOCK", s.Srv.Path)
 	fc := fake.NewFakeCluster(fake.ClusterVersionV119)
+	s.Cluster = fc
 	kubeeventsmanager.DefaultFactoryStore.Reset()
 	ctx, cancel := context.WithCancel(context.Background())
 	s.cancel = cancel
